@@ -3,6 +3,8 @@
 package consensus
 
 import (
+	"context"
+
 	"github.com/LiskHQ/lisk-engine/pkg/blockchain"
 	"github.com/LiskHQ/lisk-engine/pkg/codec"
 	"github.com/LiskHQ/lisk-engine/pkg/collection/bytes"
@@ -12,6 +14,7 @@ import (
 	"github.com/LiskHQ/lisk-engine/pkg/db"
 	"github.com/LiskHQ/lisk-engine/pkg/db/diffdb"
 	"github.com/LiskHQ/lisk-engine/pkg/log"
+	"github.com/LiskHQ/lisk-engine/pkg/p2p"
 	"github.com/LiskHQ/lisk-engine/pkg/statemachine"
 )
 
@@ -97,6 +100,8 @@ func zz06NewEnv(t *zzT, n int, order []byte) *zz06Env {
 		chain:           e.chain,
 		liskBFT:         m,
 		certificatePool: certificate.NewPool(),
+		conn:            &p2p.Connection{GossipSub: &p2p.GossipSub{}},
+		ctx:             context.Background(),
 		database:        e.database,
 		logger:          zz06Logger{},
 	}
@@ -253,6 +258,16 @@ func zz06StubGetBlockHeaderByHeight(d *blockchain.DataAccess, height uint32) (*b
 		return nil, db.ErrDataNotFound
 	}
 	return e.header(height), nil
+}
+
+func zz06StubLastBlock(c *blockchain.Chain) *blockchain.Block {
+	e := zz06E
+	return &blockchain.Block{Header: e.header(e.tip)}
+}
+
+// Publish: no topic is registered in the harness (natively the real GossipSub.Publish answers the same).
+func zz06StubPublish(gs *p2p.GossipSub, ctx context.Context, topicName string, data []byte) error {
+	return p2p.ErrTopicNotFound
 }
 
 // BLSSign: validator i's secret key is {i} symbolically; the signature is the unit token of i, tagged
